@@ -176,7 +176,12 @@ def case(args) -> dict:
                 ref.setdefault(sp, []).append(idt)
         sbad, skey = opseq.inspect(seq_root, sds, ref, 2, fmt)
         if sbad:
-            out["harness"] = f"sequential reference itself is broken: {sbad[:2]}"
+            # the one-after-another mode is the same call: its result must be
+            # exact too
+            for prop, sym, msg in sbad:
+                out["bad"].append((sym, f"{fmt} writers {spec} "
+                                   f"single_process=True: {msg}",
+                                   {"fmt": fmt, "spec": spec, "order": None}))
             return out
         sseq = {sp: D.ids(Dataset(seq_root), sp, "sync") for sp in ref}
         keys = set()
@@ -230,6 +235,69 @@ def case(args) -> dict:
         out["harness"] = f"{type(e).__name__}: {e} " + traceback.format_exc(
         )[-500:]
     finally:
+        shutil.rmtree(box, ignore_errors=True)
+    return out
+
+
+# ---------------------------------------------------------------------------
+# environment answer: the number of CPUs the library may look at
+# ---------------------------------------------------------------------------
+def env_case(args) -> dict:
+    """Free-running workers (no gates: a correct library may well run fewer
+    processes than writers), os.cpu_count() answering `cpu`."""
+    fmt, spec, cpu, single = args
+    out = {"spec": spec, "fmt": fmt, "bad": [], "executions": 0,
+           "harness": None, "outcomes": 0}
+    box = core.fresh_dir("c09e")
+    real = os.cpu_count
+    try:
+        import multiprocessing
+        multiprocessing.set_start_method("fork", force=True)
+        from sedpack.io import Dataset
+        ref: dict = {}
+        writers = writers_of(spec)
+        for items in writers:
+            for sp, idt in items:
+                ref.setdefault(sp, []).append(idt)
+        root = box / "d"
+        ds_ = D.create(root, fmt=fmt, eps=2)
+        a = [(w, writers[w], -1, -1, str(root)) for w in range(len(writers))]
+        desc = (f"{fmt} writers {spec} os.cpu_count()={cpu} "
+                f"single_process={single}")
+        case_ = {"fmt": fmt, "spec": spec, "cpu": cpu, "single": single,
+                 "kind": "env"}
+        os.cpu_count = lambda: cpu
+        out["executions"] += 1
+        try:
+            res = D.with_alarm(120, lambda: ds_.write_multiprocessing(
+                feed_writer=gated_feed, custom_arguments=a,
+                single_process=single))
+        except D.Watchdog:
+            out["bad"].append(("hang", f"{desc}: no result after 120 s",
+                               case_))
+            return out
+        except Exception as e:  # pylint: disable=broad-except
+            out["bad"].append(("fails", f"{desc}: {type(e).__name__}: "
+                               f"{str(e)[:200]}", case_))
+            return out
+        finally:
+            os.cpu_count = real
+        want_ret = [(w, [i for _, i in items])
+                    for w, items in enumerate(writers)]
+        got_ret = [(r[0], [tuple(i) for i in r[1]]) for r in res]
+        if got_ret != want_ret:
+            out["bad"].append(("return-values",
+                               f"{desc}: return values {got_ret} expected "
+                               f"{want_ret}", case_))
+        pbad, _ = opseq.inspect(root, ds_, ref, 2, fmt)
+        for prop, sym, msg in pbad:
+            out["bad"].append((sym, f"{desc}: {msg}", case_))
+        out["outcomes"] = 1
+    except Exception as e:  # pylint: disable=broad-except
+        out["harness"] = f"{type(e).__name__}: {e} " + traceback.format_exc(
+        )[-500:]
+    finally:
+        os.cpu_count = real
         shutil.rmtree(box, ignore_errors=True)
     return out
 
@@ -501,6 +569,29 @@ def run(ctx):
             for sym, msg, c in r["bad"]:
                 ctx.violation({"engine": "procgates", "symptom": sym,
                                "fmt": r["fmt"]}, msg, c)
+        wide = [[("train", 1)], [("test", 2)], [], [("train", 3), ("test", 1)],
+                [("holdout", 1)], [("train", 2)]]
+        vtasks = [(f, sp, cpu, single)
+                  for f in (("fb", "npz", "tfrec") if ctx.tier == "thorough"
+                            else ("fb",))
+                  for sp in (SPECS[1], SPECS[3], wide)
+                  for cpu in (1, 2, 3, None)
+                  for single in (False, True)]
+        nv = 0
+        for r in ex.map(env_case, vtasks):
+            if r["harness"]:
+                ctx.harness_error(f"env {r['spec']}: {r['harness']}")
+                continue
+            nv += r["executions"]
+            ctx.add(states=r["outcomes"], transitions=r["executions"],
+                    traces_validated_against_impl=r["executions"])
+            for sym, msg, c in r["bad"]:
+                ctx.violation({"engine": "env", "symptom": sym,
+                               "fmt": r["fmt"]}, msg, c)
+        ctx.part("environment answers: os.cpu_count() in 1,2,3,None below / "
+                 "at / above the number of writers x pool or single process "
+                 "(free-running workers, full recount oracle)",
+                 cases=len(vtasks), executions=nv)
         etasks = [("fb", SPECS[0], 1), ("fb", SPECS[1], 1), ("fb", SPECS[3], 1),
                   ("fb", SPECS[5], 1), ("npz", SPECS[1], 1),
                   ("tfrec", SPECS[0], 1)]
@@ -568,5 +659,9 @@ def replay(case_):
             return ([str(err)] if err else []) + [m for _, m, _ in r["bad"]]
         finally:
             shutil.rmtree(box, ignore_errors=True)
-    r = case((case_["fmt"], spec, [case_["order"]]))
+    if case_.get("kind") == "env":
+        r = env_case((case_["fmt"], spec, case_["cpu"], case_["single"]))
+        return [m for _, m, _ in r["bad"]]
+    r = case((case_["fmt"], spec,
+              [case_["order"]] if case_.get("order") is not None else []))
     return [m for _, m, _ in r["bad"]]
